@@ -186,3 +186,103 @@ Theorem C13_oracle_sound : forall (A : Type) (ops : app_ops A) (p : params),
   forall k r, In (k, r) (monitor p (length apps) (model_transcript A ops p apps ins)) -> rule_prop r <> PC13.
 Proof. exact c13_oracle_sound. Qed.
 Print Assumptions C13_oracle_sound.
+
+(* ---------------------------------------------------------------------------------------------- *)
+(* EXTRACTION OF VISITS (Proofs/C13Visits.v).  visits_of h reads the token visits of ONE station off a
+   history h of `run` (histories as in C15.v): per visit the previous token time (last_token_time when the
+   visit begins), the token time, the deadline, the rounds in which applications were asked (time of the
+   poll, high_prio_only) and the time of the poll that passed the token on (None: visit still open, or cut
+   short by giving up the token / going offline).  `mono 0 events`: the poll times are > 0 and strictly
+   increasing.  `0 <= p_slot_bits p` holds for every builder-valid parameter set. *)
+From PB Require Import Telegram Phy C13Visits FdlOracleSound2.
+
+(* C13_station_visits_ok: every visit extracted from a history of a newly created model station - any
+   applications, any events - satisfies sv_ok: previous token time < token time; every round lies after the
+   arrival and satisfies exactly hold_ok (normal round: now < deadline; high-priority-only round: the first
+   round of the visit, deadline <= now); the deadline is ONE number per visit and <= previous token time +
+   TTR (deadline_ok); the release is not before the arrival nor before any round.  Hence hold_ok and
+   deadline_ok of C13_rotation_bound_conditional are theorems about model stations (sv_ok_hold). *)
+Theorem C13_station_visits_ok : forall (A : Type) (ops : app_ops A) (p : params) (f0 : fdl) (apps : list A)
+    (evs : list (C15Proofs.event A)) (f : fdl) (apps' : list A) (h : list hitem),
+  0 <= p_slot_bits p -> fdl_new p = Ok f0 -> mono 0 evs -> C15Proofs.run A ops f0 apps evs = Ok (f, apps', h) ->
+  Forall (sv_ok (token_rotation_time p)) (visits_of h).
+Proof. exact station_visits_ok. Qed.
+Print Assumptions C13_station_visits_ok.
+
+Theorem C13_station_visit_hold_deadline : forall (TTR : Z) (v : svisit) (next : Z),
+  sv_ok TTR v -> hold_ok (to_visit v next) /\ deadline_ok TTR (to_visit v next).
+Proof. exact sv_ok_hold. Qed.
+Print Assumptions C13_station_visit_hold_deadline.
+
+(* C13_visits_linked: in the list of extracted visits, the visit after a COMPLETED visit has that visit's
+   token time as its previous token time - or 0 when the station was re-created in between (set_offline, or
+   the self-re-creation after a second address collision).  This is the second half of ring_run. *)
+Theorem C13_visits_linked : forall (A : Type) (ops : app_ops A) (p : params) (f0 : fdl) (apps : list A)
+    (evs : list (C15Proofs.event A)) (f : fdl) (apps' : list A) (h : list hitem),
+  0 <= p_slot_bits p -> fdl_new p = Ok f0 -> mono 0 evs -> C15Proofs.run A ops f0 apps evs = Ok (f, apps', h) ->
+  linked (visits_of h).
+Proof. exact visits_linked. Qed.
+Print Assumptions C13_visits_linked.
+
+(* C13_rotation_bound_stations: the rotation bound for N MODEL stations with RING hypotheses only.
+   Given: histories H i of model stations with parameters P i (station_history: ANY applications, ANY events
+   with increasing poll times) whose TTR is at most TTR; the ring order - the v-th visit of the ring is visit
+   ix v of station st v, completed by passing the token, N visits later it is the same station's next visit,
+   no station re-created; medium / schedule - timing_ok C O for the visits (token released by one visit
+   arrives as the next visit within O, a message cycle ends within C).  Then every rotation takes at most
+   TTR + N (C + O).  The per-station hypotheses of C13_rotation_bound_conditional (hold_ok, deadline_ok,
+   previous token time = the station's previous arrival) are no longer assumed: they are discharged by
+   C13_station_visits_ok and C13_visits_linked.  STILL ASSUMED (not proved): that N model stations on a
+   shared medium produce histories with this ring order and these timing bounds. *)
+Theorem C13_rotation_bound_stations : forall (N : nat) (P : nat -> params) (H : nat -> list hitem)
+    (st ix : nat -> nat) (SV : nat -> svisit) (TTR C O : Z),
+  (forall i, station_history (P i) (H i) /\ 0 <= p_slot_bits (P i) /\ token_rotation_time (P i) <= TTR) ->
+  (forall v, nth_error (visits_of (H (st v))) (ix v) = Some (SV v) /\ sv_release (SV v) <> None) ->
+  (forall v, st (v + N)%nat = st v /\ ix (v + N)%nat = S (ix v)) ->
+  (forall v, (N <= v)%nat -> sv_prev (SV v) <> 0) ->
+  (forall v, timing_ok C O (ring_visit SV v)) ->
+  (1 <= N)%nat -> 0 <= TTR -> 0 <= C -> 0 <= O ->
+  forall v, (N <= v)%nat ->
+  sv_arrival (SV (v + N)%nat) - sv_arrival (SV v) <= TTR + Z.of_nat N * (C + O).
+Proof. exact rotation_bound_stations. Qed.
+Print Assumptions C13_rotation_bound_stations.
+
+(* The explicit core of the message-cycle bound C, one step from ALL states: the poll that sends a request
+   expecting a reply leaves last_bus_activity = now + 11 bit * |request| (C13_request_starts_wait); from then
+   on, on a silent bus (PHY not busy, nothing complete in the receive buffer, every buffered byte counted)
+   the FIRST poll later than last_bus_activity + Tslot calls handle_timeout (C13_reply_wait_expires).  With
+   polls at most delta apart, a message cycle without reply therefore ends within
+   11 bit * |request| + Tslot + delta of the poll that sent the request.  A full derivation of C and O for a
+   ring (replies, synchronisation pauses, hand-over, the other stations) is NOT given. *)
+Theorem C13_request_starts_wait : forall (A : Type) (ops : app_ops A) (f : fdl) (now : Z) (busy : bool) (rxb : bytes)
+    (apps : list A) (f' : fdl) (o : phy_out) (apps' : list A) (calls : list call),
+  poll ops f now (mkPhyIn busy rxb) apps = Ok (f', o, apps', calls) ->
+  kind_of (f_state f) = KUseToken -> f_conn f = ConnOnline -> (f_pending f <= length rxb)%nat ->
+  kind_of (f_state f') = KAwaitDataResponse ->
+  exists wire, tx o = Some wire /\ f_lba f' = Some (now + dur (f_p f) (length wire)) /\
+               f_pending f' = length (rx_left o).
+Proof. exact request_starts_wait. Qed.
+Print Assumptions C13_request_starts_wait.
+
+Theorem C13_reply_wait_expires : forall (A : Type) (ops : app_ops A) (f : fdl) (now : Z) (rxb : bytes)
+    (apps : list A) (f' : fdl) (o : phy_out) (apps' : list A) (calls : list call) (a tk : Z) (fa : option nat) (l : Z),
+  poll ops f now (mkPhyIn false rxb) apps = Ok (f', o, apps', calls) ->
+  f_state f = AwaitDataResponse a tk fa -> f_conn f = ConnOnline -> f_lba f = Some l ->
+  f_pending f = length rxb -> decode rxb = Ok NeedMore -> 0 <= p_slot_bits (f_p f) ->
+  l + slot_time (f_p f) < now ->
+  exists cl, calls = CallHandleTimeout (f_next_app f) a :: cl.
+Proof. exact reply_wait_expires. Qed.
+Print Assumptions C13_reply_wait_expires.
+
+(* Non-vacuity: a newly created station alone on the bus, polled every 3 ms, with the demo application of
+   C15: the model claims the token, scans its GAP and visits itself; the first two extracted visits (the first
+   with the request and, after the time-out, the decline; linked: 99001 is the token time of the first and the
+   previous token time of the second). *)
+Example C13_demo_visits : exists f0 f apps h,
+  fdl_new demo4_params = Ok f0 /\ mono 0 demo4_events /\
+  C15Proofs.run nat demo_ops f0 [0%nat] demo4_events = Ok (f, apps, h) /\
+  firstn 2 (visits_of h) =
+    [mkSv 0 99001 1689375 [(105001, false); (117001, false)] (Some 117001);
+     mkSv 99001 117001 1788376 [(123001, false)] (Some 123001)] /\
+  firstn 3 (calls_of h) = [CallTransmit 0 false (Some (demo_wire, Some 5)); CallHandleTimeout 0 5; CallTransmit 0 false None].
+Proof. exact demo4_visits. Qed.
